@@ -151,7 +151,11 @@ class Module:
         if cmd != 0x63:
             return None
         self.world.log(kind="udp_list_identity", dev=self.ip)
-        return build_encap(0x63, 0, 0, ctx, self.list_identity_body())
+        frame = build_encap(0x63, 0, 0, ctx, self.list_identity_body())
+        hook = getattr(self, "reply_hook", None)
+        if hook is not None:
+            frame = hook(frame, {"kind": "list_identity", "udp": True, "service": None})
+        return frame
 
     def list_identity_body(self):
         idn = self.identity
